@@ -17,11 +17,15 @@ import (
 	"encoding/asn1"
 	"fmt"
 	"math/big"
+	"net"
+	"net/url"
+	"strings"
 	"time"
 
 	"github.com/smallstep/pkcs7"
 	smallscep "github.com/smallstep/scep"
 	scepx509util "github.com/smallstep/scep/x509util"
+	stepx509util "go.step.sm/crypto/x509util"
 
 	c "verif/harness/common"
 )
@@ -225,16 +229,40 @@ func (cl *clients) csrDER(k *clientKey, variant, challenge string, hasChallenge 
 	}
 	cn := "c15.example"
 	dns := []string{"c15.example"}
+	var emails []string
+	var ips []net.IP
+	var uris []*url.URL
 	switch subj {
 	case 1:
 		cn, dns = "device-1", nil
 	case 2:
 		cn, dns = "host.c15.example", []string{"host.c15.example", "alt.c15.example"}
+	case 3: // no common name: forceCN takes the first DNS name
+		cn, dns = "", []string{"first.c15.example", "second.c15.example"}
+	case 4: // common name that is an e-mail address, no SAN
+		cn, dns = "dev@c15.example", nil
+	case 5: // common name that is an IP address, no SAN
+		cn, dns = "10.1.2.3", nil
+	case 6: // every kind of name
+		cn, dns = "all.c15.example", []string{"all.c15.example"}
+		emails = []string{"ops@c15.example"}
+		ips = []net.IP{net.ParseIP("192.0.2.9"), net.ParseIP("2001:db8::9")}
+		u, _ := url.Parse("spiffe://c15.example/dev")
+		uris = []*url.URL{u}
+	case 7: // a DNS name that reads as an IP address, an e-mail only
+		cn, dns = "odd", []string{"192.0.2.7", "z.c15.example"}
+		emails = []string{"a@c15.example"}
+	case 8: // no common name and no DNS name: forceCN has nothing to take
+		cn, dns = "", nil
+		emails = []string{"only@c15.example"}
 	}
 	tmpl := &scepx509util.CertificateRequest{
 		CertificateRequest: x509.CertificateRequest{
-			Subject:  pkix.Name{CommonName: cn},
-			DNSNames: dns,
+			Subject:        pkix.Name{CommonName: cn},
+			DNSNames:       dns,
+			EmailAddresses: emails,
+			IPAddresses:    ips,
+			URIs:           uris,
 		},
 	}
 	if _, ok := k.key.Public().(*rsa.PublicKey); ok {
@@ -282,12 +310,36 @@ func nonceAttr(oid asn1.ObjectIdentifier, mode string, val []byte) []pkcs7.Attri
 var theNonce = []byte("c15-nonce-000001")
 
 // buildRaw assembles signedData(envelopedData(env)) with exactly the attributes of the case.
+// recipient: the certificate the request's envelope is encrypted to. "" = the certificate
+// GetCACert lists first for this provisioner (its own decrypter certificate if it has one, else the
+// CA intermediate), "ca" = the intermediate, "prov" = the provisioner's, "other" = a third party.
+func recipient(k *Case, cl *clients, ca *testCA) *x509.Certificate {
+	var rcpt *x509.Certificate
+	switch k.Rcpt {
+	case "other":
+		rcpt = cl.other
+	case "ca":
+		rcpt = ca.caCert
+	case "prov":
+		rcpt = ca.caCert
+		if dk := ca.decs[k.Prov]; dk != nil {
+			rcpt = dk.cert
+		}
+	default:
+		rcpt = ca.caCert
+		if dk := ca.decs[k.Prov]; dk != nil {
+			rcpt = dk.cert
+		}
+	}
+	if _, ok := rcpt.PublicKey.(*rsa.PublicKey); !ok {
+		rcpt = cl.other // nothing can be enveloped for an EC certificate
+	}
+	return rcpt
+}
+
 func buildRaw(k *Case, cl *clients, ca *testCA, env []byte) ([]byte, error) {
 	ck := cl.keys[k.Key]
-	rcpt := ca.caCert
-	if k.Rcpt == "other" {
-		rcpt = cl.other
-	}
+	rcpt := recipient(k, cl, ca)
 	var content []byte
 	var err error
 	switch k.Inner {
@@ -347,10 +399,7 @@ func buildRaw(k *Case, cl *clients, ca *testCA, env []byte) ([]byte, error) {
 // buildLib uses the SCEP library's own request constructor (standard attribute set).
 func buildLib(k *Case, cl *clients, ca *testCA, csr *x509.CertificateRequest) ([]byte, error) {
 	ck := cl.keys[k.Key]
-	rcpt := ca.caCert
-	if k.Rcpt == "other" {
-		rcpt = cl.other
-	}
+	rcpt := recipient(k, cl, ca)
 	msg, err := smallscep.NewCSRRequest(csr, &smallscep.PKIMessage{
 		MessageType: smallscep.MessageType(k.MT),
 		Recipients:  []*x509.Certificate{rcpt},
@@ -397,7 +446,9 @@ type fields struct {
 	RN     string
 	FI     string // ok | empty | none
 	Inner  bool   // pkcs7.Parse(content) succeeds
-	Dec    bool   // Decrypt with the CA decrypter succeeds
+	Dec    bool   // the envelope decrypts under one of the two decrypters
+	DecP   bool   // … under the provisioner's own decrypter key
+	DecD   bool   // … under the authority's default decrypter (the RSA intermediate key)
 	Env    string // csr | badsig | nocsr | cperr | degen:<n> | bad   (classification of the decrypted envelope)
 	CP     string // challenge password as the library parses it (valid CSR only)
 	CPAny  string // the same, whatever the CSR's signature says (what a webhook may be shown)
@@ -408,6 +459,9 @@ type fields struct {
 	Signer int                 // position of the signer certificate in Certs, -1 if none
 	Nonce  []byte
 	CSRKey any
+	CN     string   // CSR subject common name
+	Sans   []string // the CSR's names as SignCSR strings them, "<class>:x<hex>" with CreateSANs' class
+	CNKind string   // CreateSANs' class of the common name
 }
 
 func attrBytes(p7 *pkcs7.PKCS7, oid asn1.ObjectIdentifier) string {
@@ -421,7 +475,7 @@ func attrBytes(p7 *pkcs7.PKCS7, oid asn1.ObjectIdentifier) string {
 	return "ok"
 }
 
-func analyze(raw []byte, ca *testCA) (f fields) {
+func analyze(raw []byte, ca *testCA, ps *provSpec) (f fields) {
 	f.Signer = -1
 	p7, err := pkcs7.Parse(raw)
 	if err != nil {
@@ -472,8 +526,21 @@ func analyze(raw []byte, ca *testCA) (f fields) {
 		return
 	}
 	f.Inner = true
-	env, err := p7c.Decrypt(ca.caCert, ca.caKey)
-	if err != nil {
+	var env []byte
+	if dk := ca.decs[ps.Name]; dk != nil {
+		if e, err := p7c.Decrypt(dk.cert, dk.key); err == nil {
+			f.DecP, env = true, e
+		}
+	}
+	if _, isRSA := ca.caKey.Public().(*rsa.PublicKey); isRSA {
+		if e, err := p7c.Decrypt(ca.caCert, ca.caKey); err == nil {
+			f.DecD = true
+			if env == nil {
+				env = e
+			}
+		}
+	}
+	if !f.DecP && !f.DecD {
 		return
 	}
 	f.Dec = true
@@ -499,6 +566,20 @@ func analyze(raw []byte, ca *testCA) (f fields) {
 		} else {
 			f.Env, f.CP = "csr", cp
 			f.CSRKey = csr.PublicKey
+			f.CN = csr.Subject.CommonName
+			var sans []string
+			sans = append(sans, csr.DNSNames...)
+			sans = append(sans, csr.EmailAddresses...)
+			for _, v := range csr.IPAddresses {
+				sans = append(sans, v.String())
+			}
+			for _, v := range csr.URIs {
+				sans = append(sans, v.String())
+			}
+			for _, sn := range sans {
+				f.Sans = append(f.Sans, sanClass(sn)+":"+c.X(sn))
+			}
+			f.CNKind = sanClass(f.CN)
 			switch pk := csr.PublicKey.(type) {
 			case *rsa.PublicKey:
 				f.SignOK = pk.Size() >= 2048/8
@@ -508,6 +589,21 @@ func analyze(raw []byte, ca *testCA) (f fields) {
 		}
 	}
 	return
+}
+
+// sanClass is the class x509util.CreateSANs (the template data constructor SignCSR calls) gives a string.
+func sanClass(v string) string {
+	for _, sn := range stepx509util.CreateSANs([]string{v}) {
+		switch sn.Type {
+		case stepx509util.IPType:
+			return "i"
+		case stepx509util.EmailType:
+			return "e"
+		case stepx509util.URIType:
+			return "u"
+		}
+	}
+	return "d"
 }
 
 func okStr(b bool) string { return c.B(b) }
@@ -521,11 +617,24 @@ func hookField(ps *provSpec, challenge string) string {
 			res = "a"
 		case "deny":
 			res = "d"
-		case "e400", "json":
-			res = "e"
+		case "e400":
+			res = "4"
+		case "json":
+			res = "j"
 		case "match":
 			if hookDecision(challenge) {
 				res = "a"
+			}
+		case "r5allow":
+			res = "5a"
+		case "r5deny":
+			res = "5d"
+		case "r55":
+			res = "55"
+		case "r5match":
+			res = "5d"
+			if hookDecision(challenge) {
+				res = "5a"
 			}
 		}
 		hs = append(hs, h.Kind+":"+h.CT+":"+res)
@@ -534,9 +643,31 @@ func hookField(ps *provSpec, challenge string) string {
 }
 
 // modelLine renders the model input of one request.
-func modelLine(f fields, ps *provSpec, httpOK bool) string {
+func modelLine(f fields, ps *provSpec, httpOK bool, sh httpShape, ca *testCA) string {
 	var b bytes.Buffer
-	fmt.Fprintf(&b, "pki http=%s p7=%s tid=%s", okStr(httpOK), okStr(f.P7), okStr(f.TID))
+	// the HTTP request and the key pairs / chain options the handlers see
+	ppair := "00"
+	switch ps.Dec {
+	case "both":
+		ppair = "11"
+	case "certonly":
+		ppair = "10"
+	}
+	ddec, dsig := "11", "11"
+	if ca.kind == "ec" {
+		ddec = "10" // decrypterCertificate is set from the signer certificate, no RSA decrypter
+	}
+	caps := "-"
+	if len(ps.Caps) > 0 {
+		var cs []string
+		for _, x := range ps.Caps {
+			cs = append(cs, c.X(x))
+		}
+		caps = strings.Join(cs, ",")
+	}
+	fmt.Fprintf(&b, "pki meth=%s path=%s lookup=%s qok=%s op=%s ppair=%s ddec=%s dsig=%s inter=1 roots=1 exint=%s incroot=%s caps=%s",
+		sh.meth, sh.path, sh.lookup, okStr(sh.qok), sh.op, ppair, ddec, dsig, okStr(ps.ExInt), okStr(ps.IncRoot), caps)
+	fmt.Fprintf(&b, " http=%s p7=%s tid=%s", okStr(httpOK), okStr(f.P7), okStr(f.TID))
 	if f.MTok {
 		fmt.Fprintf(&b, " mt=%s", c.X(f.MT))
 	} else {
@@ -552,7 +683,7 @@ func modelLine(f fields, ps *provSpec, httpOK bool) string {
 	} else {
 		b.WriteString(" st=!")
 	}
-	fmt.Fprintf(&b, " rn=%s fi=%s inner=%s dec=%s", rn, fi, okStr(f.Inner), okStr(f.Dec))
+	fmt.Fprintf(&b, " rn=%s fi=%s inner=%s decp=%s decd=%s", rn, fi, okStr(f.Inner), okStr(f.DecP), okStr(f.DecD))
 	env := f.Env
 	if env == "" {
 		env = "nocsr"
@@ -576,7 +707,12 @@ func modelLine(f fields, ps *provSpec, httpOK bool) string {
 	if f.Signer >= 0 {
 		signer = fmt.Sprint(f.Signer)
 	}
-	fmt.Fprintf(&b, " env=%s cp=%s degen=%s signok=%s certs=%s signer=%s", env, c.X(f.CP), degen, okStr(f.SignOK), certs, signer)
+	cnk := f.CNKind
+	if cnk == "" {
+		cnk = "d"
+	}
+	fmt.Fprintf(&b, " env=%s cp=%s degen=%s cn=%s sans=%s cnk=%s forcecn=%s signok=%s certs=%s signer=%s", env, c.X(f.CP), degen,
+		c.X(f.CN), c.List(f.Sans), cnk, okStr(ps.ForceCN), okStr(f.SignOK), certs, signer)
 	fmt.Fprintf(&b, " secret=%s hooks=%s inits=%d", c.X(ps.Secret), hookField(ps, f.CP), ps.PreInits+1)
 	return b.String()
 }
